@@ -17,6 +17,8 @@ import (
 
 type verifEventBackend struct {
 	events []*gostatsd.Event
+	// when set: the cloud handler whose wait group must still count an event that was parked
+	parkedIn *CloudHandler
 }
 
 func (b *verifEventBackend) Name() string { return "rec" }
@@ -24,6 +26,9 @@ func (b *verifEventBackend) SendMetricsAsync(ctx context.Context, mm *gostatsd.M
 	cb(nil)
 }
 func (b *verifEventBackend) SendEvent(ctx context.Context, e *gostatsd.Event) error {
+	if b.parkedIn != nil {
+		verifAssert(verifWaitGroupCount(&b.parkedIn.wg) > 0, "the cloud stage released its wait group before a parked event reached the backends (WaitForEvents could return early)")
+	}
 	b.events = append(b.events, e)
 	return nil
 }
@@ -119,11 +124,15 @@ func verifC19(nBackends int) {
 			verifAssert(len(r.events) == 0, "an event must not reach a backend before its sender's lookup completed")
 		}
 		ch.handleIncomingEvent(<-ch.incomingEvents)
+		for _, r := range recs {
+			r.parkedIn = ch
+		}
 		var in *gostatsd.Instance
 		if nondetBool() {
 			in = inst
 		}
 		ch.handleInstanceInfo(ctx, gostatsd.InstanceInfo{IP: "10.9.8.7", Instance: in})
+		verifYield()
 		cloudTagged = in != nil
 		verifReach("after-lookup")
 	} else {
